@@ -1018,3 +1018,34 @@ func (c *Ctx) SameSubterm(fnSpec, desc string) {
 	}
 	c.add("A", fnSpec, "samesubterm", desc, report.Violated, "no return with two results", c.fnPos(f))
 }
+
+// StoreFieldN: fn stores to field `field` exactly len(patterns) times and the i-th pattern matches some store, each
+// store matching some pattern.
+func (c *Ctx) StoreFieldN(fnSpec, field string, patterns []string, desc string) {
+	f := c.Fn(fnSpec)
+	if f == nil {
+		return
+	}
+	r := "storeN/" + field
+	sts := FieldStores(f, field)
+	if len(sts) != len(patterns) {
+		c.add("A", fnSpec, r, desc, report.Violated, fmt.Sprintf("%d stores to %s, expected %d", len(sts), field, len(patterns)), c.fnPos(f))
+		return
+	}
+	used := map[int]bool{}
+	for _, st := range sts {
+		t := f.Term(st.Val)
+		ok := false
+		for i, p := range patterns {
+			if !used[i] && ir.MatchAny(c.X(p), t) {
+				used[i], ok = true, true
+				break
+			}
+		}
+		if !ok {
+			c.add("A", fnSpec, r, desc, report.Violated, fmt.Sprintf("%s := %s matches none of the expected updates", field, short(t.String())), c.posOf(st))
+			return
+		}
+	}
+	c.add("A", fnSpec, r, desc, report.OK, fmt.Sprintf("%d stores", len(sts)), c.posOf(sts[0]))
+}
